@@ -117,7 +117,7 @@ class AddrMap(object):
         if params[0] in self.addr:
             self.addr[params[0]].update(*params)
 
-        else:
+        elif params[1] != '<error>':
             a = Addr(self)
             # add both name and IP address
             self.addr[params[0]] = a
